@@ -39,7 +39,27 @@ def first_line(notes):
   return t[:230]
 
 
+def breaking_only(t):
+  """The brief without part (A): two breaking changes only (round 14, a short round)."""
+  a = t.index('(A) ONE BEHAVIOUR-PRESERVING')
+  b = t.index('(B) TWO BREAKING CHANGES')
+  t = t[:a] + t[b:]
+  t = t.replace('Produce THREE code changes', 'Produce TWO code changes').replace('(and not the function of (A))', '')
+  t = t.replace('a change that LOOKS like one of the refactorings of (A)', 'a change that LOOKS like a behaviour-preserving clean-up a maintainer could make')
+  t = t.replace('For each of the three changes deliver', 'For each of the two changes deliver').replace('apart from the three directories', 'apart from the two directories')
+  t = t.replace('summarise the three changes', 'summarise the two changes')
+  h = t.index(' For harmless_{hl}/ it must')
+  t = t[:h] + t[t.index(';', t.index('the two runs can be compared')):]
+  t = t.replace(' for harmless ones a short argument why it is equivalent;', '')
+  return t
+
+
 def main():
+  argv = [a for a in sys.argv if a != '--breaking-only']
+  global TEMPLATE
+  if len(argv) != len(sys.argv):
+    TEMPLATE = breaking_only(TEMPLATE)
+  sys.argv = argv
   rnd, hl, b1, b2 = sys.argv[1:5]
   out = sys.argv[5] if len(sys.argv) > 5 else '/tmp/prompts'
   os.makedirs(out, exist_ok=True)
